@@ -10,6 +10,7 @@ configuration object / docutils settings are deep-equal before and after every m
 
 from __future__ import annotations
 
+import typing
 import copy
 import io
 import json
@@ -566,8 +567,61 @@ def eval_invalid_doc(ctx, case):
         ctx.violation("front-matter:invalid-not-ignored", f"the invalid front-matter value {name}={val!r} changed the rendering", case, {"text": t_bad[:300]})
 
 
+DOCUTILS_DICT_STRINGS = ["false", "no", "off", "0", "0.0", "[]", "''", "~", "null", "", " ", "1", "true", "[a]", "abc", "{}", "{a: b}", "a: b", "{a: [u, ~]}", "a: [u, ~]", "{1: b}", "- a", "a: b\nc: d", "{a: {b: c}}", "a:", "{", "!!set {a}",
+                         "!!python/object:os.system x", "{a: 1}", "a: ~"]
+DOCUTILS_INT_STRINGS = ["x", "1.5", "", "-1", "0", "1", "7", "8", "200", " 3", "nan", "1e1", "true", "None", "0x2"]
+
+
+def eval_docutils_string_acceptance(ctx, case):
+    """Option STRINGS of the docutils entry point (command line / docutils.conf): a string is accepted exactly when it spells - by the documented
+    deserialisation (a YAML dictionary, an integer) - a value the constructor accepts, and then it yields the constructor's configuration."""
+    from docutils import frontend
+
+    from myst_parser.config.main import MdParserConfig
+    from myst_parser.parsers.docutils_ import Parser, create_myst_config
+
+    name, s = case["field"], case["string"]
+    flag = "--myst-" + name.replace("_", "-")
+    if case["as"] == "yaml-dict":
+        try:
+            pyv = yaml.safe_load(s)
+            if name == "url_schemes" and isinstance(pyv, str):
+                pyv = {k: None for k in pyv.split(",")}  # documented: a comma-delimited list of schemes or a YAML dictionary
+            spelled = isinstance(pyv, dict)
+        except Exception:  # noqa: BLE001
+            pyv, spelled = None, False
+    else:
+        spelled = re.fullmatch(r"\s*[-+]?\d+\s*", s) is not None
+        pyv = int(s) if spelled else None
+    exp_cfg = None
+    if spelled:
+        try:
+            exp_cfg = MdParserConfig(**{name: pyv})
+        except Exception:  # noqa: BLE001
+            exp_cfg = None
+    want = exp_cfg is not None
+    import contextlib
+
+    try:
+        with contextlib.redirect_stderr(io.StringIO()):
+            settings = frontend.OptionParser(components=(Parser,)).parse_args([f"{flag}={s}"])
+            dcfg = create_myst_config(settings)
+        got = True
+    except (Exception, SystemExit):  # noqa: BLE001
+        got, dcfg = False, None
+    ctx.count("docutils_string_acceptance_checked")
+    ctx.count("docutils_string_acceptance:" + ("accepted" if got else "rejected"))
+    detail = {"flag": flag, "string": s, "deserialised": repr(pyv), "constructor_accepts": want}
+    if got != want:
+        ctx.violation(f"entry:docutils-string:acceptance:{name}", f"{flag}={s!r} is {'accepted' if got else 'rejected'} (it becomes {getattr(dcfg, name, None)!r}); the string spells {pyv!r}, which the constructor {'accepts' if want else 'rejects'}", case, detail)
+    elif got and not same(getattr(dcfg, name), getattr(exp_cfg, name)):
+        ctx.violation(f"entry:docutils-string:differs:{name}", f"{flag}={s!r} gives {getattr(dcfg, name)!r}, the constructor gives {getattr(exp_cfg, name)!r}", case, detail)
+
+
 def eval_case(ctx, case):
     k = case["kind"]
+    if k == "docutils_string":
+        return eval_docutils_string_acceptance(ctx, case)
     if k == "value":
         eval_value(ctx, case)
         eval_invalid_sphinx(ctx, case)
@@ -605,6 +659,20 @@ def run_shard(ctx):
     ctx.case(n=n)
     ctx.enumerated(n)
     ctx.subrun("field_value_matrix", exhaustive=True, fields=len(names) if ctx.shard == 0 else 0, cases=n)
+    k = 0
+    for name in names:
+        fld = fields()[name]
+        if "docutils" in fld.metadata.get("omit", []):
+            continue
+        t = typing.get_origin(fld.type) is dict
+        if not t and fld.type is not int:
+            continue
+        for sx in (DOCUTILS_DICT_STRINGS if t else DOCUTILS_INT_STRINGS):
+            k += 1
+            if k % ctx.nshards == ctx.shard:
+                eval_case(ctx, {"kind": "docutils_string", "field": name, "string": sx, "as": "yaml-dict" if t else "int"})
+                ctx.case(("docutils_string", name, sx), True)
+    ctx.subrun("docutils_option_string_acceptance", exhaustive=True, dict_strings=len(DOCUTILS_DICT_STRINGS), int_strings=len(DOCUTILS_INT_STRINGS))
     ctx.sample({"kind": "value", "field": "url_schemes", "index": 3, "value": repr(pool("url_schemes")[3])})
     for i in range(len(SPHINX_EFFECTS)):
         if i % ctx.nshards == ctx.shard % len(SPHINX_EFFECTS) or not quick:
